@@ -50,6 +50,7 @@ type CScenario struct {
 	Typed      bool        `json:"typed,omitempty"`
 	Prefix     string      `json:"prefix,omitempty"`
 	Override   bool        `json:"override,omitempty"`
+	CustomNF   bool        `json:"custom_nf,omitempty"`
 }
 
 type CRecord struct {
@@ -442,7 +443,7 @@ func (e *Engine) checkCorpus(c *core.Ctx, id string) ([]core.Violation, map[stri
 			aloneBy[[2]int{a.Task, a.Op}] = a
 			if id == "C15" {
 				ps = append(ps, corpusC15(a, stub[scs[i].Pkg])...)
-				ps = append(ps, routingRule(a, e.matchers(scs[i].Pkg), scs[i].Pkg, scs[i].Prefix)...)
+				ps = append(ps, routingRule(a, e.matchers(scs[i].Pkg), scs[i].Pkg, scs[i].Prefix, scs[i].CustomNF)...)
 			}
 		}
 		for _, cr := range r.Conc {
@@ -459,7 +460,7 @@ func (e *Engine) checkCorpus(c *core.Ctx, id string) ([]core.Violation, map[stri
 			}
 			if id == "C15" {
 				ps = append(ps, corpusC15(cr, stub[scs[i].Pkg])...)
-				ps = append(ps, routingRule(cr, e.matchers(scs[i].Pkg), scs[i].Pkg, scs[i].Prefix)...)
+				ps = append(ps, routingRule(cr, e.matchers(scs[i].Pkg), scs[i].Pkg, scs[i].Prefix, scs[i].CustomNF)...)
 			} else {
 				ps = append(ps, corpusC19(aloneBy[[2]int{cr.Task, cr.Op}], cr)...)
 			}
@@ -535,7 +536,7 @@ func (e *Engine) replayCorpus(c *core.Ctx, id string, raw json.RawMessage, race 
 					ps = append(ps, typedDeliver(cr, pkg, deliver[pkg])...)
 				case "C15":
 					ps = append(ps, typedC15(cr, pkg)...)
-					ps = append(ps, routingRule(cr, e.matchers(pkg), pkg, rs.Scenario.Prefix)...)
+					ps = append(ps, routingRule(cr, e.matchers(pkg), pkg, rs.Scenario.Prefix, rs.Scenario.CustomNF)...)
 				case "C19":
 					if pi == 1 {
 						ps = append(ps, typedC19(aloneBy[[2]int{cr.Task, cr.Op}], cr, pkg)...)
@@ -558,13 +559,13 @@ func (e *Engine) replayCorpus(c *core.Ctx, id string, raw json.RawMessage, race 
 		aloneBy[[2]int{a.Task, a.Op}] = a
 		if id == "C15" {
 			ps = append(ps, corpusC15(a, stubOf(e, rs.Scenario.Pkg))...)
-			ps = append(ps, routingRule(a, e.matchers(rs.Scenario.Pkg), rs.Scenario.Pkg, rs.Scenario.Prefix)...)
+			ps = append(ps, routingRule(a, e.matchers(rs.Scenario.Pkg), rs.Scenario.Pkg, rs.Scenario.Prefix, rs.Scenario.CustomNF)...)
 		}
 	}
 	for _, cr := range r.Conc {
 		if id == "C15" {
 			ps = append(ps, corpusC15(cr, stubOf(e, rs.Scenario.Pkg))...)
-			ps = append(ps, routingRule(cr, e.matchers(rs.Scenario.Pkg), rs.Scenario.Pkg, rs.Scenario.Prefix)...)
+			ps = append(ps, routingRule(cr, e.matchers(rs.Scenario.Pkg), rs.Scenario.Pkg, rs.Scenario.Prefix, rs.Scenario.CustomNF)...)
 		} else {
 			ps = append(ps, corpusC19(aloneBy[[2]int{cr.Task, cr.Op}], cr)...)
 		}
@@ -693,7 +694,7 @@ func wholeSegments(rts []Route, method string) bool {
 
 // routingRule: a request reaches only an operation its request line designates; a path that designates none is
 // answered 404, one whose operations do not take the method 405 - without reaching any handler.
-func routingRule(r *CRecord, ms []routeMatcher, pkg, prefix string) []problem {
+func routingRule(r *CRecord, ms []routeMatcher, pkg, prefix string, custom bool) []problem {
 	if r.ReqPath == "" || strings.HasPrefix(r.Call.TOp, "~") || len(ms) == 0 {
 		return nil
 	}
@@ -730,6 +731,8 @@ func routingRule(r *CRecord, ms []routeMatcher, pkg, prefix string) []problem {
 		case len(rts) == 0:
 			if s.MiddlewareOps != 0 || s.HandlerCalls != 0 || s.Status != 404 {
 				add("a path that designates no operation is answered 404 and reaches no handler", fmt.Sprintf("delivery %d: status %d, middleware saw %q", i, s.Status, s.MiddlewareSaw))
+			} else if custom && s.CustomNotFound != 1 {
+				add("the configured NotFound handler answers a path that designates no operation", fmt.Sprintf("delivery %d: status %d, the handler ran %d times", i, s.Status, s.CustomNotFound))
 			}
 		case len(forMethod) == 0:
 			preflight := r.ReqMethod == "OPTIONS" && s.Status == 204
@@ -738,6 +741,8 @@ func routingRule(r *CRecord, ms []routeMatcher, pkg, prefix string) []problem {
 			lenient := s.Status == 404 && !allWholeSegments(rts)
 			if s.MiddlewareOps != 0 || s.HandlerCalls != 0 || (s.Status != 405 && !preflight && !lenient) {
 				add("a path whose operations do not take the method is answered 405 and reaches no handler", fmt.Sprintf("delivery %d: status %d, middleware saw %q", i, s.Status, s.MiddlewareSaw))
+			} else if custom && s.CustomNotFound+s.CustomNotAllow != 1 {
+				add("the configured MethodNotAllowed handler answers a path whose operations do not take the method", fmt.Sprintf("delivery %d: status %d, NotFound ran %d times, MethodNotAllowed %d times", i, s.Status, s.CustomNotFound, s.CustomNotAllow))
 			}
 		case s.MiddlewareOps > 0:
 			ok := false
